@@ -212,7 +212,7 @@ Section Inv.
   Proof.
     intros B. unfold RawSet. destruct k; try (eapply bounded_same_arr; [apply arr_RawSetH|auto]).
     - destruct (is_array_key mai (KInt z)) eqn:E.
-      + unfold bounded in *. simpl in *. rewrite len_set_arr by lia. lia.
+      + unfold bounded in *. simpl in *. pose proof (len_set_arr (arr t) (z - 1) v ltac:(lia)). lia.
       + eapply bounded_same_arr; [apply arr_RawSetH|auto].
     - eapply bounded_same_arr; [apply arr_RawSetString|auto].
   Qed.
@@ -221,6 +221,6 @@ Section Inv.
   Proof.
     intros B. unfold RawSetInt. destruct ((i <? 1) || (mai <=? i)) eqn:E.
     - eapply bounded_same_arr; [apply arr_RawSetH|auto].
-    - unfold bounded in *. simpl. rewrite len_set_arr by lia. lia.
+    - unfold bounded in *. simpl. pose proof (len_set_arr (arr t) (i - 1) v ltac:(lia)). lia.
   Qed.
 End Inv.
